@@ -320,7 +320,7 @@ def run(tier, seed, t0):
     # use after free (a reference count dropped too early)
     sanit.run_pass(acc, PROP, tier, seed, extra_items=memory_jobs(),
                    quick={"asan": 240, "memcheck": 64, "miri": 24},
-                   thorough={"asan": 2400, "memcheck": 640, "miri": 256})
+                   thorough={"asan": 2400, "memcheck": 480, "miri": 160})
     return runner.finish(
         PROP, tier, seed, "exploration", acc, t0,
         rule="collector: %d hand-written cyclic structures (self / $ / super references, mutually recursive locals and functions, closures capturing their "
